@@ -385,6 +385,16 @@ Section CacheFacts.
     destruct (lookup k all_par); reflexivity.
   Qed.
 
+  Lemma args0_notvar k : k <> time_name -> ~ In k (keys (m_dat m)) -> ~ In k (keys vars) ->
+    lookup k (args0 m all_par vars t) = lookup k all_par.
+  Proof.
+    intros Ht Hd Hv. unfold args0. rewrite lookup_cons_ne by exact Ht.
+    rewrite lookup_env_of_dict_notin by exact Hd.
+    rewrite lookup_env_of_dict_notin by exact Hv.
+    rewrite lookup_env_of_dict_nodup by exact nodup_all_par.
+    destruct (lookup k all_par); reflexivity.
+  Qed.
+
   Lemma e1_var x v : lookup x vars = Some v -> lookup x e1 = Some v.
   Proof.
     intro H. assert (Hx : In x (keys (m_var m))) by (apply Hvars; eapply lookup_In_keys; exact H).
@@ -404,11 +414,10 @@ Section CacheFacts.
     intro Hf.
     assert (Hcl : In k (keys (m_par m)) \/ In k (keys (m_der m))) by (destruct Hf as [H|[_ H]]; [left|right]; exact H).
     rewrite e1_frame.
-    - rewrite args0_nodata.
-      + destruct (lookup k vars) as [v|] eqn:E; [|reflexivity]. exfalso.
-        apply lookup_In_keys in E. apply Hvars in E. destruct Hcl as [H|H]; names_contra m HWF k.
+    - apply args0_notvar.
       + intros ->. destruct Hcl as [H|H]; names_contra m HWF time_name.
       + intro Hd. destruct Hcl as [H|H]; names_contra m HWF k.
+      + intro E. apply Hvars in E. destruct Hcl as [H|H]; names_contra m HWF k.
     - intros nm c Hin Hd Hk. destruct (to_sort_outs m nm c k Hin Hk) as [->|Hs].
       + destruct Hf as [Hp|[Hs _]]; [exact (par_not_dyn nm Hp Hd)|exact (sd_disjoint nm Hs Hd)].
       + destruct Hcl as [H|H]; names_contra m HWF k.
